@@ -81,9 +81,15 @@ pub fn html5ever_tokens(input: &str) -> Vec<HTok> {
     {
         let t = Tokenizer::new(
             Proxy { inner: TreeBuilder::new(RcDom::default(), TreeBuilderOpts::default()), tokens: RefCell::new(&mut tokens) },
-            TokenizerOpts::default(),
+            TokenizerOpts { discard_bom: false, ..TokenizerOpts::default() },
         );
-        while let TokenizerResult::Script(_) = t.feed(&b) {}
+        // scripts and encoding indicators are ignored: keep feeding until the queue is drained
+        loop {
+            match t.feed(&b) {
+                TokenizerResult::Done => break,
+                _ => continue,
+            }
+        }
         t.end();
     }
     tokens
